@@ -1,5 +1,5 @@
 """C03 -- closed solution paths are well formed (DESIGN 6 C03)."""
-import json, os, sys, glob
+import json, os, sys, glob, shutil
 import vf
 sys.path.insert(0, os.path.join(vf.VERIF, 'gen'))
 import polys
@@ -624,7 +624,7 @@ def phase_stream(ctx, env, cases, label, combos_per_case=None, builds=('plain',)
         use_rings = (b == 'plain' and 'rings' in env.exes)
         exe = env.exes['rings'] if use_rings else env.exes['bool.' + b]
         lines = [(rings_line if use_rings else bool_line)(cases[jobs[k][0]], *jobs[k][1:5]) for k in idxs]
-        o, fails = vf.par_lines(exe, lines, timeout=300 if ctx.quick else 900)
+        o, fails = vf.par_lines(exe, lines, timeout=120 if ctx.quick else 900)
         if fails:
             l, rc, err = isolate(exe, fails[0][0])
             if l is None:
@@ -688,7 +688,7 @@ def phase_stream(ctx, env, cases, label, combos_per_case=None, builds=('plain',)
                     ul.append(reunion_line(fr2, pc, rs, outs[k]['closed'])); uidx.append((k, fr2))
         if not ul:
             continue
-        uo, ufails = vf.par_lines(env.exes['bool.' + b], ul, timeout=300 if ctx.quick else 900)
+        uo, ufails = vf.par_lines(env.exes['bool.' + b], ul, timeout=120 if ctx.quick else 900)
         if ufails:
             l, rc, err = isolate(env.exes['bool.' + b], ufails[0][0])
             if l is None:
@@ -753,6 +753,14 @@ def setup(ctx):
                       replay=dict(error=str(e)[-2000:]), nofail=True)
     env.exes['bool.plain'] = vf.build_cpp(ctx, 'cx_bool.cpp', 'plain')
     env.exes['bool.hi'] = vf.build_cpp(ctx, 'cx_bool.cpp', 'hi')
+    # private copies: the shared binary cache is trimmed by concurrent builds of other checks while this one still runs
+    for k, exe in list(env.exes.items()):
+        mine = os.path.join(ctx.work, k.replace('.', '_') + '.exe')
+        try:
+            shutil.copy2(exe, mine)
+            env.exes[k] = mine
+        except OSError:
+            pass
     return env
 
 
